@@ -35,6 +35,8 @@
 //!                get_claimable_balances drains.
 #[path = "c06/bump.rs"]
 mod bump;
+#[path = "c06/pkgtrace.rs"]
+mod pkgtrace;
 use bitcoin::{OutPoint, Transaction, TxOut, Txid};
 use ldk_verif_harness::common::*;
 use ldk_verif_harness::sim::{silence_stdout, Net};
@@ -539,6 +541,7 @@ fn build_second_stage(net: &Net, cheater: usize, chan_id: lightning::ln::types::
 fn justice_scenario(seed: u64, thorough: bool, index: u64) -> Result<Outcome, String> {
 	let mut rng = Rng::new(seed);
 	HIST.with(|h| h.borrow_mut().clear());
+	pkgtrace::enable();      // package-layer differential: every update_claims_view_from_matched_txn call / aggregation of BOTH monitors is recorded
 	let mut out = Outcome { ops: vec![], directives: vec![], class: String::new(), oracle: vec![], extra_classes: vec![] };
 	let anchors = rng.chance(1, 3);
 	let cfg = if anchors { test_default_channel_config() } else { test_legacy_channel_config() };
@@ -731,6 +734,8 @@ fn justice_scenario(seed: u64, thorough: bool, index: u64) -> Result<Outcome, St
 	let _ = net.nodes[victim].node.get_and_clear_pending_msg_events();
 	// hand the chain stream over in file order
 	out.ops.extend(cx.stream.lines.drain(..));
+	// the package layer (Model/Packages.lean): real handler state before each call -> model -> real state after it
+	for (op, res, cl) in pkgtrace::cases() { out.ops.push((op, Some(res), cl)); }
 	Ok(out)
 }
 
@@ -751,7 +756,7 @@ fn main() {
 					Ok(Ok(o)) => {
 						for d in &o.directives { rec.directive(d); }
 						for (op, res, cl) in &o.ops { match res {
-							Some(r) => rec.case(op, r, cl, op.starts_with("confirm") || op.starts_with("conn") || op.starts_with("disc")),
+							Some(r) => rec.case(op, r, cl, op.starts_with("confirm") || op.starts_with("conn") || op.starts_with("disc") || op.starts_with("pkg")),
 							None => rec.directive(op),
 						} }
 						for c in &o.extra_classes { *rec.classes.entry(c.clone()).or_insert(0) += 1; }
